@@ -372,6 +372,38 @@ def _block(block, agg):
             agg.extra["sibling_scans"] += n_scans
             for k, sig, d in viol or []:
                 agg.violation(k, dict({kk: vv for kk, vv in sig.items() if kk != "at_step"}, family="sibling"), case, d)
+    elif kind == "moved":
+        # the whole checkout, cache included, is moved / copied to another place (a CI cache restored into another workspace) or
+        # scanned through a symbolic link: the cache-assisted scan there must equal a fresh scan there
+        import shutil
+
+        _, how = block
+        files = {"a.py": "c1", "d/a.py": "c2", "d/c.js": "c1"}
+        with harness.temp_tree() as parent:
+            first = parent / "checkout_1" / "proj"
+            first.mkdir(parents=True)
+            materialise(first, files, "none", None, False)
+            with harness.cwd(first):
+                code, _t, exc = harness.run_cli_function(scan_with_config, "none")
+            harness.reset_globals()
+            if exc is not None or code not in (None, 0):
+                agg.violation("scan-fails", {"error": type(exc).__name__ if exc else f"exit-{code}", "family": "moved"}, {"part": "moved", "how": how}, repr(exc))
+                return
+            cache_doc = json.loads((first / ".codelimit_cache" / "codelimit.json").read_text())
+            second = parent / "checkout_2" / "proj"
+            second.parent.mkdir()
+            if how == "move":
+                shutil.move(str(first), str(second))
+            elif how == "copy":
+                shutil.copytree(str(first), str(second), symlinks=True)
+            else:
+                os.symlink(str(first), str(second))
+            new_doc, viol = do_scan(second, dict(files), "none", cache_doc)
+            case = {"part": "moved", "how": how}
+            agg.case(case, True, "ok" if not viol else viol[0][0], sample=False)
+            agg.transitions += 2
+            for k, sig, d in viol:
+                agg.violation(k, dict(sig, family="moved-checkout", how=how), case, d)
     elif kind == "near":
         _, p, other, edit = block
         for first, second in ((("nv:padded-64k", "nv:edit-beyond-64k"), ("nv:edit-beyond-64k", "nv:padded-64k")) if edit == "edit-beyond-64k"
@@ -544,6 +576,10 @@ def run_histories(paths, cids, prefix, depth, agg):
 
 
 def replay(case):
+    if case["part"] == "moved":
+        agg = core.Agg()
+        _block(("moved", case["how"]), agg)
+        return [r for lst in agg.violations.values() for _, r in lst][:3]
     if case["part"] == "state":
         _, viol = eval_state(case["files"], case["excl"], case["cache"], case.get("touched", False))
     else:
@@ -603,6 +639,8 @@ def run(ctx: core.Ctx):
             blocks.append(("near", p, other, edit))
     for a, b in (("s/x.h", "s/y.cpp"), ("s/x.h", "s/y.cc"), ("s/b.js", "s/b.ts"), ("s/x.c", "s/x.h"), ("s/a.py", "s/a.js")):
         blocks.append(("sibling", a, b))
+    for how in ("move", "copy", "symlink"):
+        blocks.append(("moved", how))
     ctx.bounds["near_edits"] = NEAR_EDITS
     ctx.bounds["sibling_pairs"] = ["x.h + y.cpp", "x.h + y.cc", "b.js + b.ts", "x.c + x.h", "a.py + a.js"]
     ctx.run_blocks(_block, blocks)
